@@ -437,8 +437,8 @@ def _replay_tref(shape, m):
         else:
             t = base + 10.0 * k + np.arange(n) * 1.5 + 2.0
         tm_ = (m.get("tref") or [None] * K)[k]
-        tr = {"default": None, "false": False}.get(shape["tref"], 0)
-        if tr == 0:
+        tr = {"default": None, "false": False}.get(shape["tref"], "explicit")
+        if tr == "explicit":
             tr = Time(base + (f(tm_) if tm_ is not None else -7.25), format="mjd", scale="tcb")
             if shape["tref"] == "common" and srcs:
                 tr = srcs[0].t_ref
